@@ -39,6 +39,8 @@ TStep ==
      \/ Ev.ev = "poll" /\ Healthy /\ Ev.m \notin polled /\ FirstPoll(Ev.m) /\ NoD
      \/ Ev.ev = "poll" /\ Poll(Ev.m) /\ NoD
      \/ Ev.ev = "slow_read" /\ Same /\ NoD
+     \/ Ev.ev = "read" /\ Healthy /\ PolledRead(Ev.m) /\ NoD
+     \/ Ev.ev = "read" /\ ~Healthy /\ Same /\ NoD
      \/ Ev.ev = "poll_long" /\ PollBegin(Ev.m) /\ NoD
      \/ Ev.ev = "poll_end" /\ PollEnd(Ev.m) /\ NoD
      \/ Ev.ev = "started_cb" /\ StartedCb(Ev.m) /\ NoD
